@@ -31,11 +31,11 @@ func (c14) Rule() string {
 func (c14) Components() map[string]string {
 	return map[string]string{
 		"crl.FileCache (Get, Set, NewFileCache)": "real",
-		"internal/file.WriteFile":               "real",
-		"os (file system calls)":                "simos shim over kernel tmpfs: real rename/open/unlink semantics, simulated scheduling, faults and kills",
-		"clock":                                 "synctest bubble",
-		"x509 CRL creation/parsing":             "real (crypto/x509)",
-		"reference model":                       "porcupine nondeterministic register per URL (miss always legal)",
+		"internal/file.WriteFile":                "real",
+		"os (file system calls)":                 "simos shim over kernel tmpfs: real rename/open/unlink semantics, simulated scheduling, faults and kills",
+		"clock":                                  "synctest bubble",
+		"x509 CRL creation/parsing":              "real (crypto/x509)",
+		"reference model":                        "porcupine nondeterministic register per URL (miss always legal)",
 	}
 }
 
@@ -177,8 +177,8 @@ type c14Entry struct {
 	Client  int    `json:"client"`
 	Kind    string `json:"kind"`
 	URL     string `json:"url"`
-	Val     int64  `json:"val,omitempty"`     // set: value stored; get: value obtained (0 = none)
-	Outcome string `json:"outcome"`           // set: ok | err | crashed ; get: hit | miss | err-fault | pending
+	Val     int64  `json:"val,omitempty"` // set: value stored; get: value obtained (0 = none)
+	Outcome string `json:"outcome"`       // set: ok | err | crashed ; get: hit | miss | err-fault | pending
 	Call    uint64 `json:"call"`
 	Ret     uint64 `json:"ret"`
 	Err     string `json:"err,omitempty"`
